@@ -214,8 +214,6 @@ def noRecipeAllowed : List String := [
   "glue.core.subset.Subset",     -- ungrouped subsets are coerced into groups by the collection loader (legacy)
   "glue.core.subset.CompositeSubsetState",
   "glue.core.component.DaskComponent",
-  "glue.core.component.ExtendedComponent",
-  "glue.core.data_region.RegionData",
   "glue.core.link_helpers.BaseMultiLink",
   "glue.core.link_helpers.ManualLinkCollection",
   "glue.core.link_helpers.LinkCollection",
